@@ -257,7 +257,8 @@ def native_playback_batch(items, feats=""):
                       "kani::concrete_playback_run(concrete_vals, crate::%s)" % harness, test_text)
         uniq = name + "_" + hashlib.sha256(harness.encode()).hexdigest()[:8]
         body = body.replace("fn " + name + "()", "fn " + uniq + "()")
-        bodies.append(body)
+        if uniq not in names:     # several obligations may share one (confirmation) harness and counterexample
+            bodies.append(body)
         names.append(uniq)
     pg = CONTRACTS / "src" / "playback_gen.rs"
     pg.write_text("\n".join(bodies))
